@@ -115,6 +115,7 @@ def _check_main(ctx, rep: Report):
                     t = None
                     if isinstance(n, (ast.Assign, ast.AugAssign, ast.Delete)):
                         tg = n.targets if not isinstance(n, ast.AugAssign) else [n.target]
+                        tg = [e_ for x_ in tg for e_ in (x_.elts if isinstance(x_, (ast.Tuple, ast.List)) else [x_])]
                         for x in tg:
                             s = ast.unparse(x)
                             if s.startswith("self._list") or s.startswith("self._dict"):
